@@ -189,6 +189,18 @@ func c05Main(r *run.Runner) {
 		}
 	}
 	r.Sweep("wide", int64(len(wides)), func(w *run.Worker, item int64) { c05One(w, wides[item]) })
+	// programs with bindings: every use site of C06 (operand positions, list elements first / middle / last, row counts,
+	// join conditions, nested right-hand sides) with a few binding values
+	sites := c06UseSites()
+	values := []gen.Expr{gen.NumLit("5", "5"), &gen.Unary{Op: "-", X: gen.NumLit("5", "5")}, &gen.Binary{Op: "+", X: gen.NumLit("1", "1"), Y: gen.NumLit("2", "2")}, gen.StrLit("x"), &gen.Call{Func: "f", Args: []gen.Expr{gen.NumLit("1", "1")}}}
+	r.Sweep("binding-sites", int64(len(sites)), func(w *run.Worker, item int64) {
+		for _, v := range values {
+			for _, name := range []string{"n", "x"} {
+				src, _ := c06Case{lets: []letDef{{name, v}}, site: &sites[item], ident: name}.source()
+				c05One(w, src)
+			}
+		}
+	})
 	b3 := map[string]any{}
 	if c05Pipelines != nil {
 		b3 = c05Pipelines(r)
